@@ -11,10 +11,10 @@ use crate::runner::sample_tape;
 use crate::tape::Tape;
 
 pub const RULE: &str = "the macro is a compiler, the domain is declarations. In-process engine (the macro's own source files compiled into the harness): random declarations — 3..24 variants, all six data types, ids of 1-8 bytes written in hex or decimal, \
-paths along a random master forest with trailing / intermediate / stand-alone placeholders — rendered in both syntaxes; both front ends must succeed and emit token-identical code; the generated tokens are parsed back with syn and interpreted \
+paths along a random master forest with trailing / intermediate / stand-alone placeholders, the three attributes of a variant in any of their six orders, the variants in declaration or shuffled order (a child may come before its parent) — rendered in both syntaxes; both front ends must succeed and emit token-identical code; the generated tokens are parsed back with syn and interpreted \
 (enum variants and field types, id→type, id→path, id→constructor per type, variant→id, variant→accessor, raw-tag arms) and compared with the declaration ∪ {Crc32 0xBF Binary (1-), Void 0xEC Binary (-), RawTag}. \
 Broken declarations are derived from a valid one by one systematic edit (duplicate id incl. the built-ins, unknown variant in a path, non-master parent of a leaf or of a master, path that does not extend the parent's path in three ways, (x-0) placeholder, adjacent placeholders, \
-missing #[id] / #[data_type], unknown data type) and must be rejected (Err or panic of the macro body). Compiled engine: a batch of declarations goes through the real proc-macros with rustc; a generic driver checks every trait function for declared and probe ids and a write→read round trip. \
+missing #[id] / #[data_type], unknown data type, an element naming itself as its parent) and must be rejected (Err or panic of the macro body). Compiled engine: a batch of declarations goes through the real proc-macros with rustc; a generic driver checks every trait function for declared and probe ids and a write→read round trip. \
 Non-trivial: >= 4 distinct types, depth >= 3 and >= 1 placeholder (valid), any broken declaration; distinct by declaration text.";
 
 pub const ASSUMPTIONS: &[&str] = &[
